@@ -154,6 +154,8 @@ def main(argv=None):
             p = by_id[o["id"]]
             p["vcs"] += o["vcs"]
             p["seconds"] += o["seconds"]
+            if o.get("failing"):          # bounded obligations split over several jobs: union of the failing instances
+                p["failing"] = list(p.get("failing") or []) + list(o["failing"])
             order = {"refuted": 3, "unknown": 2, "proved": 1}
             if order[o["status"]] > order[p["status"]]:
                 p.update(status=o["status"], witness=o.get("witness"), reason=o.get("reason"))
